@@ -97,13 +97,15 @@ def _case(draw, tier):
         c["std"] = draw(specs.num(0.15, 1.5))                                   # in units of size
         c["k"] = draw(st.sampled_from([0, 0, 2]))
     else:
-        c["shape"] = draw(st.sampled_from(["interval", "rect", "product"]))
+        c["shape"] = draw(st.sampled_from(["interval", "rect", "product", "moving-interval", "moving-rect"]))
+        c["move"] = draw(specs.num(0.5, 6.0))
         c["cen"] = [draw(specs.num(-5, 5)), draw(specs.num(-5, 5))]
         c["size"] = [draw(specs.num(0.5, 4)), draw(specs.num(0.5, 4))]
         c["n"] = draw(st.sampled_from([200, 50, 7, 2, 1]))
     if "E" in c:
         fv = rg.free_vars(c["E"])
-        c["prows"] = {n: [[draw(specs.num(0, 1)) for _ in range(specs.PVARS[n])]] for n in sorted(fv)}
+        k = draw(st.sampled_from([1, 1, 2, 3])) if kind in ("leaf", "bleaf") and c["regime"] != "density" else 1
+        c["prows"] = {n: [[draw(specs.num(0, 1)) for _ in range(specs.PVARS[n])] for _ in range(k)] for n in sorted(fv)}
     return c
 
 
@@ -112,25 +114,39 @@ def strategy(tier):
 
 
 # ------------------------------------------------------------------ sampling --------------
+ROWS = [None]      # parameter row of every returned sample row of the last _draw call
+
+
 def _draw(ctx, feat, D, params, N, regime, nsmall, how="random"):
     """N rows from the library (one call with n=N, or many calls with n=nsmall); every library
     call gets its own termination budget."""
     fn = D.sample_random_uniform if how == "random" else D.sample_grid
     with warnings.catch_warnings():
         warnings.simplefilter("ignore")
+        k = max(len(params), 1)
         if regime == "large":
             with ctx.lib("sample_random_uniform", feature=feat):
-                return fn(n=N, params=params).as_tensor.detach().double().numpy()
+                x = fn(n=max(N // k, 1), params=params).as_tensor.detach().double().numpy()
+            ROWS[0] = np.repeat(np.arange(k), len(x) // k) if len(x) % k == 0 else None
+            return x
         if regime == "density":
             with ctx.lib("volume", feature=feat):
                 vol = float(D.volume(params).reshape(-1)[0])
             with ctx.lib("sample_random_uniform(d)", feature=feat):
-                return fn(d=N / max(vol, 1e-9), params=params).as_tensor.detach().double().numpy()
+                x = fn(d=N / max(vol, 1e-9), params=params).as_tensor.detach().double().numpy()
+            ROWS[0] = np.zeros(len(x), dtype=int)
+            return x
         parts = []
         calls = max(1, N // (5 * nsmall))          # small-n regime: 1/5 of the sample, many calls
-        for _ in range(calls):
+        ridx = []
+        for _ in range(max(1, calls // k)):
             with ctx.lib("sample_random_uniform", feature=feat):
-                parts.append(fn(n=nsmall, params=params).as_tensor.detach().double().numpy())
+                part = fn(n=nsmall, params=params).as_tensor.detach().double().numpy()
+            parts.append(part)
+            ridx.append(np.repeat(np.arange(k), len(part) // k) if len(part) % k == 0 else np.full(len(part), -1))
+        ROWS[0] = np.concatenate(ridx)
+        if (ROWS[0] < 0).any():
+            ROWS[0] = None
         return np.concatenate(parts, axis=0)
 
 
@@ -155,11 +171,34 @@ def _polyline_u(x, rings):
     return s / cum[-1]
 
 
-def _canonical(E, penv, x):
-    """(u in [0,1]^m, grid shape) for a leaf or leaf boundary; None if no closed form is used."""
+def _polyline_u_rows(x, V):
+    """arclength fraction of x (N,2) on closed polygons V (N,m,2), one polygon per row."""
+    m = V.shape[1]
+    lens = np.stack([np.linalg.norm(V[:, (i + 1) % m] - V[:, i], axis=1) for i in range(m)], axis=1)
+    cum = np.concatenate([np.zeros((len(x), 1)), np.cumsum(lens, axis=1)], axis=1)
+    best = np.full(len(x), np.inf)
+    s = np.zeros(len(x))
+    for j in range(m):
+        a, b = V[:, j], V[:, (j + 1) % m]
+        ab = b - a
+        t = np.clip(np.einsum("nd,nd->n", x - a, ab) / np.maximum(np.einsum("nd,nd->n", ab, ab), 1e-300), 0, 1)
+        d = np.linalg.norm(x - (a + t[:, None] * ab), axis=1)
+        upd = d < best
+        best[upd] = d[upd]
+        s[upd] = cum[upd, j] + t[upd] * lens[upd, j]
+    return s / cum[:, -1]
+
+
+def _canonical(E, penv, x, rows=None):
+    """(u in [0,1]^m, grid shape) for a leaf or leaf boundary; None if no closed form is used.
+    rows: parameter row index of every sample (several parameter rows are pooled in canonical
+    coordinates, which are normalised per row)."""
     bd = rg.is_boundary(E)
     L = E["a"] if bd else E
     t = L["t"]
+    if rows is not None and penv:
+        pe = {kk: v[rows] for kk, v in penv.items()}
+        return _canonical_rows(E, pe, x)
     pe = penv
     if t == "interval":
         lo, hi = rg.pval(L["lo"], pe, 1)[0, 0], rg.pval(L["hi"], pe, 1)[0, 0]
@@ -193,6 +232,43 @@ def _canonical(E, penv, x):
         return np.stack([s ** 2, ab[:, 0] / s], axis=1), (6, 6)
     if t == "poly" and bd:
         return _polyline_u(x, rg._rings(L))[:, None], (32,)
+    return None
+
+
+def _canonical_rows(E, env, x):
+    """per-row version: env has one parameter row per sample."""
+    bd = rg.is_boundary(E)
+    L = E["a"] if bd else E
+    t = L["t"]
+    N = len(x)
+    if t == "interval":
+        lo, hi = rg.pval(L["lo"], env, N)[:, 0], rg.pval(L["hi"], env, N)[:, 0]
+        if bd:
+            return (np.abs(x[:, 0] - hi) < np.abs(x[:, 0] - lo)).astype(float)[:, None] * 0.75, (2,)
+        return ((x[:, 0] - lo) / (hi - lo))[:, None], (16,)
+    if t in ("circle", "sphere"):
+        c, R = rg.pval(L["c"], env, N), rg.pval(L["r"], env, N)[:, 0]
+        v = x - c
+        r = np.linalg.norm(v, axis=1)
+        ang = np.mod(np.arctan2(v[:, 1], v[:, 0]), 2 * np.pi) / (2 * np.pi)
+        if t == "circle":
+            return (ang[:, None], (32,)) if bd else (np.stack([(r / R) ** 2, ang], axis=1), (4, 8))
+        z = np.clip(v[:, 2] / np.maximum(r, 1e-300), -1, 1)
+        return (np.stack([(z + 1) / 2, ang], axis=1), (6, 6)) if bd else \
+            (np.stack([(r / R) ** 3, (z + 1) / 2, ang], axis=1), (3, 4, 4))
+    if t in ("par", "tri"):
+        V = rg._leaf_polygon(L, env, N)
+        if bd:
+            return _polyline_u_rows(x, V)[:, None], (32,)
+        o = V[:, 0]
+        d1 = V[:, 1] - o
+        d2 = (V[:, 3] if t == "par" else V[:, 2]) - o
+        M = np.stack([d1, d2], axis=2)                    # (N,2,2) columns d1,d2
+        ab = np.linalg.solve(M, (x - o)[:, :, None])[:, :, 0]
+        if t == "par":
+            return ab, (6, 6)
+        sm = np.clip(ab.sum(axis=1), 1e-12, None)
+        return np.stack([sm ** 2, ab[:, 0] / sm], axis=1), (6, 6)
     return None
 
 
@@ -329,10 +405,14 @@ def run_case(spec, ctx):
         core.seed_library(seed)
         return _draw(ctx, feat, D, params, n, spec["regime"], spec["nsmall"])
 
-    if kind in ("leaf", "bleaf") and _canonical(E, penv, np.zeros((1, rg.space_vars(I)[0][1]))) is not None:
+    penv1 = {kk: v[:1] for kk, v in penv.items()}
+    if kind in ("leaf", "bleaf") and _canonical(E, penv1, np.zeros((1, rg.space_vars(I)[0][1]))) is not None:
         def test(n, seed):
             x = lib_sample(n, seed)
-            u, shape = _canonical(E, penv, x)
+            rows = ROWS[0] if geo.nrows(prows) > 1 else None
+            if geo.nrows(prows) > 1 and rows is None:
+                return 0.0, 0, 1.0, "row count not divisible by the number of parameter rows (C02)"
+            u, shape = _canonical(E, penv, x, rows)
             ncell = int(np.prod(shape))
             cnt = stats.counts_of(stats.cell_index(u, shape), ncell)
             st_, df, p = stats.chi2_one_sample(cnt, np.ones(ncell))
@@ -417,7 +497,10 @@ def _run_bcomp(spec, ctx, D, E, penv, params, feat, N):
         ctx.inconclusive_case("boundary-quadrature-empty")
         return None
     Q, W = Q[keep], W[keep]
-    lo, hi = Q.min(axis=0) - 1e-9, Q.max(axis=0) + 1e-9
+    # cell edges must not coincide with edges of the geometry (a float32 sample of an edge at
+    # x = c falls on either side of a cell face at c): pad the box by incommensurable amounts
+    w = Q.max(axis=0) - Q.min(axis=0)
+    lo, hi = Q.min(axis=0) - 0.0137 * w - 1e-9, Q.max(axis=0) + 0.0291 * w + 1e-9
     shape = (6, 6)
     nc = 36
     probs = np.bincount(stats.cell_index((Q - lo) / (hi - lo), shape), weights=W, minlength=nc)
@@ -450,6 +533,8 @@ def _run_grid(spec, ctx, D, E, penv, params, feat, classes):
         return {"nontrivial": False, "classes": classes, "summary": {"rows": len(x)}}
     gen = np.random.default_rng(spec["rng"])
     y, lo, hi = _ref_joint(E, penv, 40000, gen)
+    w = hi - lo
+    lo, hi = lo - 0.0137 * w, hi + 0.0291 * w      # grid lines must not sit on cell faces
     m = 3 if dim <= 2 else 2
     shape = (m,) * dim
     nc = m ** dim
@@ -546,29 +631,57 @@ def _run_sampler_law(spec, ctx, N):
         dom = Dm.Interval(R1("u"), cen[0] - sx / 2, cen[0] + sx / 2) * Dm.Interval(R1("t"), cen[1] - sy / 2, cen[1] + sy / 2)
         lo, hi = np.array([cen[0] - sx / 2, cen[1] - sy / 2]), np.array([cen[0] + sx / 2, cen[1] + sy / 2])
     feat = "lhs:" + spec["shape"]
+    params = Points.empty()
+    boxes = [(lo, hi)]
+    if spec["shape"].startswith("moving"):
+        # the box depends on a parameter p and the sampler is called with two parameter rows: every
+        # row needs its own Latin hypercube in its own box
+        mv = float(spec.get("move", 2.0)) * sx
+        C = lambda *v: {"k": "const", "v": list(v)}
+        A1 = lambda base, a: {"k": "affine", "var": "p", "v0": list(base), "V1": [[x] for x in a]}
+        if spec["shape"] == "moving-interval":
+            E = {"t": "interval", "var": "u", "lo": A1([cen[0] - sx / 2], [mv]), "hi": A1([cen[0] + sx / 2], [mv])}
+            lo0, hi0 = np.array([cen[0] - sx / 2]), np.array([cen[0] + sx / 2])
+            shift = np.array([mv])
+        else:
+            o = [cen[0] - sx / 2, cen[1] - sy / 2]
+            E = {"t": "par", "var": "x", "o": A1(o, [mv, 0.0]), "c1": A1([o[0] + sx, o[1]], [mv, 0.0]),
+                 "c2": A1([o[0], o[1] + sy], [mv, 0.0])}
+            lo0, hi0 = np.array(o), np.array([o[0] + sx, o[1] + sy])
+            shift = np.array([mv, 0.0])
+        dom = build.domain(E)
+        lo, hi = lo0, hi0
+        pr = [[0.0], [1.0]]
+        params = build.params_points({"p": pr})
+        boxes = [(lo0 + r[0] * shift, hi0 + r[0] * shift) for r in pr]
+        # float32 values of the bounds
+        boxes = [(np.float32(a).astype(float), np.float32(b).astype(float)) for a, b in boxes]
     core.seed_library(spec["rng"])
     worst = 0
     for rep in range(5):
         with ctx.lib("LHSSampler", feature=feat):
             with warnings.catch_warnings():
                 warnings.simplefilter("ignore")
-                P = S.LHSSampler(dom, n).sample_points()
-        x = P.as_tensor.detach().double().numpy()
-        if x.shape != (n, len(lo)):
-            ctx.violation("lhs-shape", feat, f"LHS returned shape {x.shape} for n={n}")
+                P = S.LHSSampler(dom, n).sample_points(params)
+        xall = P[:, list(dom.space.keys())].as_tensor.detach().double().numpy()
+        if xall.shape != (n * len(boxes), len(lo)):
+            ctx.violation("lhs-shape", feat, f"LHS returned shape {xall.shape} for n={n}, {len(boxes)} parameter row(s)")
             break
-        for ax in range(len(lo)):
-            pos = (x[:, ax] - lo[ax]) / (hi[ax] - lo[ax]) * n
-            idx = np.floor(pos).astype(int)
-            # float32 points may sit within 1e-4 of a slab edge: let those fall on either side
-            frac = pos - idx
-            counts = np.bincount(np.clip(idx, 0, n - 1), minlength=n)
-            if not np.all(counts == 1):
-                amb = (frac < 1e-4 * n) | (frac > 1 - 1e-4 * n)
-                if not amb.any() or np.abs(counts - 1).sum() > 2 * amb.sum():
-                    ctx.violation("lhs-slabs", feat, f"n={n}, axis {ax}: slab occupancy {counts.tolist()[:20]} is not one point per slab")
-                    worst = 1
-                    break
+        for ax, bi in [(ax, bi) for bi in range(len(boxes)) for ax in range(len(lo))]:
+            x = xall[bi * n:(bi + 1) * n]
+            lo, hi = boxes[bi]
+            if True:
+                pos = (x[:, ax] - lo[ax]) / (hi[ax] - lo[ax]) * n
+                idx = np.floor(pos).astype(int)
+                # float32 points may sit within 1e-4 of a slab edge: let those fall on either side
+                frac = pos - idx
+                counts = np.bincount(np.clip(idx, 0, n - 1), minlength=n)
+                if not np.all(counts == 1):
+                    amb = (frac < 1e-4 * n) | (frac > 1 - 1e-4 * n)
+                    if not amb.any() or np.abs(counts - 1).sum() > 2 * amb.sum():
+                        ctx.violation("lhs-slabs", feat, f"n={n}, axis {ax}: slab occupancy {counts.tolist()[:20]} is not one point per slab")
+                        worst = 1
+                        break
         if worst:
             break
     return {"nontrivial": n >= 2, "classes": classes + [f"lhs-n{n}"], "summary": {"n": n}}
@@ -616,7 +729,16 @@ def extra_cases(tier, seed):
     for j, shape in enumerate(["interval", "rect", "disc"]):
         out.append({"kind": "gauss", "regime": "large", "nsmall": 1, "rng": seed * 100 + 70 + j, "shape": shape,
                     "cen": [1.0, -2.0], "size": 2.0, "off": [0.2, -0.1], "std": 0.5, "k": 0})
-    for j, (shape, n) in enumerate([("interval", 50), ("rect", 50), ("product", 7)]):
+    stretchy = {"t": "par", "var": "x", "o": C(0.0, 0.0), "c1": {"k": "affine", "var": "p", "v0": [1.0, 0.0], "V1": [[3.0], [0.0]]},
+                "c2": C(0.0, 1.0)}          # 1x1 at p=0, 4x1 at p=1
+    for j, (E_, rows) in enumerate([({"t": "boundary", "a": stretchy}, [[0.0], [1.0]]), (stretchy, [[0.0], [1.0]]),
+                                    ({"t": "boundary", "a": {"t": "tri", "var": "x", "o": C(0.0, 0.0),
+                                                             "c1": {"k": "affine", "var": "p", "v0": [1.0, 0.0], "V1": [[2.0], [0.0]]},
+                                                             "c2": C(0.0, 1.0)}}, [[0.0], [1.0], [0.5]])]):
+        for regime in ("large", "small"):
+            out.append({"kind": "bleaf" if E_["t"] == "boundary" else "leaf", "regime": regime, "nsmall": 2,
+                        "rng": seed * 100 + 90 + j, "E": E_, "prows": {"p": rows}})
+    for j, (shape, n) in enumerate([("interval", 50), ("rect", 50), ("product", 7), ("moving-interval", 20), ("moving-rect", 20)]):
         out.append({"kind": "lhs", "regime": "large", "nsmall": 1, "rng": seed * 100 + 80 + j, "shape": shape,
                     "cen": [1.0, -2.0], "size": [2.0, 1.5], "n": n})
     return out
